@@ -45,7 +45,7 @@ def make_override(kind, ctxvar, k):
     return {"const": const, "contextual": contextual, "conditional": conditional}[kind]
 
 
-def run_case(chk, fn, src, focus, ctxvar, kinds, args, script, gscript, stats):
+def run_case(chk, fn, src, focus, ctxvar, kinds, args, script, gscript, stats, shapes=None):
     import ptera
     from ptera import ABSENT
     ovs = [make_override(kd, ctxvar, i) for i, kd in enumerate(kinds)]
@@ -57,13 +57,17 @@ def run_case(chk, fn, src, focus, ctxvar, kinds, args, script, gscript, stats):
     want_stream = [progrun.plain(v) for n, v in tmod.BLOG if n == focus] if "." not in focus else None
     pyprog.drop_module(tmod)
     # ---- implementation
-    mod = progrun.make(src, "verif_c04_impl")
+    # the overridden function may be reached through a wrapper: an override can then be written with a longer
+    # call path (outer_w > f > x); which override wins must only depend on the order of activation
+    shapes = shapes or ["direct"] * len(ovs)
+    via_wrapper = "path" in shapes
+    mod = progrun.make(src + "\ndef outer_w(*a):\n    return %s(*a)\n" % fn["name"], "verif_c04_impl")
     sel = "%s(%s) > %s" % (fn["name"], ctxvar, focus) if ctxvar else "%s > %s" % (fn["name"], focus)
     plain_stream = []
     try:
         probes = []
-        for ov in ovs:
-            p = ptera.probing(sel, env=mod.__dict__, overridable=True)
+        for ov, shape in zip(ovs, shapes):
+            p = ptera.probing(("outer_w > " + sel) if shape == "path" else sel, env=mod.__dict__, overridable=True)
 
             def setter(data, ov=ov):
                 r = ov(data.get(focus), data)
@@ -77,7 +81,7 @@ def run_case(chk, fn, src, focus, ctxvar, kinds, args, script, gscript, stats):
         for p in order:
             p.__enter__()
         try:
-            got = progrun.drive(mod, getattr(mod, fn["name"]), args, script, gscript)
+            got = progrun.drive(mod, mod.outer_w if via_wrapper else getattr(mod, fn["name"]), args, script, gscript)
         finally:
             for p in reversed(order):
                 p.__exit__(None, None, None)
@@ -89,7 +93,9 @@ def run_case(chk, fn, src, focus, ctxvar, kinds, args, script, gscript, stats):
     chk.count(src + sel + json.dumps([kinds, args, script, gscript]), nontrivial=bool(want_stream))
     for kd in kinds:
         chk.dist("override:" + kd)
-    replay = {"source": src, "selector": sel, "overrides": kinds, "args": args, "script": script,
+    for sh in shapes:
+        chk.dist("selector-shape:" + sh)
+    replay = {"source": src, "selector": sel, "overrides": kinds, "selector_shapes": shapes, "args": args, "script": script,
               "gen_script": gscript, "twin": want, "overridden": got}
     if got != want:
         diff = "; ".join("%s: %s vs %s" % (k, str(want[k])[:80], str(got.get(k))[:80]) for k in want if got.get(k) != want[k]) \
@@ -131,8 +137,8 @@ def run(chk):
     chk.cov["rule"] = (
         "generated functions and generators (C01's program space) x a focus among the names they bind or an "
         "attribute store (O.a) x override kinds {constant, depending on a captured context variable, "
-        "conditional on the tentative value} x one or two nested overriding probes with a plain probe in "
-        "between; compared with the substituted twin (result or exception, yielded sequence, ordered helper log, "
+        "conditional on the tentative value} x one or two nested overriding probes (each written either directly, "
+        "f > x, or through a calling wrapper, outer_w > f > x) with a plain probe in between; compared with the substituted twin (result or exception, yielded sequence, ordered helper log, "
         "object state, and the plain probe's stream); non-trivial = the focus is bound on the executed path")
     stats = {"programs": 0, "cases": 0}
     n = 90 if chk.tier == "quick" else 2500
@@ -151,7 +157,10 @@ def run(chk):
             ctxvar = rng.choice(others) if others and rng.random() < 0.5 else None
             kinds = [rng.choice(["const", "contextual" if ctxvar else "const", "conditional"])
                      for _ in range(rng.choice([1, 1, 2]))]
-            run_case(chk, fn, src, focus, ctxvar, kinds, args, script, gscript, stats)
+            shapes = None
+            if not fn["generator"] and rng.random() < 0.5:
+                shapes = [rng.choice(["direct", "path"]) for _ in kinds]
+            run_case(chk, fn, src, focus, ctxvar, kinds, args, script, gscript, stats, shapes)
         if i % 30 == 0:
             chk.sample({"source": src, "twin": pylite.render(fn, twin=True, subst=(names[0], "SUBST"))})
     closures(chk, stats)
